@@ -253,7 +253,7 @@ func init() {
 	})
 }
 
-var c16Keys = []string{"a", "b", "c", "len", "max", "zz", "Name", "Inner", "P", "Label", "N", "Age", "Score", "Any", "$v"}
+var c16Keys = []string{"a", "b", "c", "len", "max", "zz", "Name", "Inner", "P", "Label", "N", "Age", "Score", "Any", "$v", "null", "true", "typeof", "this", "ctx", "\u00e9", "Len"}
 
 func genLeafV(t *rapid.T) spec.V {
 	switch rapid.IntRange(0, 13).Draw(t, "leafk") {
@@ -422,6 +422,12 @@ func TestC16Random(t *testing.T) {
 				cur, has = spec.V{K: "inner"}, true
 			} else {
 				has = false
+			}
+		}
+		if !c.This {
+			switch c.Root {
+			case "null", "true", "typeof", "this", "ctx", "false":
+				c.This = true // a keyword is only a name after a dot
 			}
 		}
 		msg, cls := checkPath(c)
